@@ -22,6 +22,22 @@ CLAIMED = {
              "LRUSteps; threading.Lock mutual exclusion and switching at source-line granularity; capacity >= 1.",
         design_ref="§5 C26",
     ),
+    "C07": dict(
+        category="proof",
+        technique="Lean 4 invariant/refinement proof (LoopContext model = loop specification for all item lists "
+                  "and all operation sequences) + exhaustive differential op sequences on LoopContext/"
+                  "AsyncLoopContext + end-to-end renders",
+        text="Theorems (Props/C07.lean): for every item list, sized or unsized iterable and every finite sequence of "
+             "next/attribute operations the LoopContext model (look-ahead slot, lazily cached length) returns exactly "
+             "the documented values (loop_attr_values); the items handed out are a prefix of the input in order "
+             "(loop_visits_in_order) and all of it once next reports exhaustion (stop_means_all). Tie: every query "
+             "pattern of length <=2 (quick) / <=3 (thorough) over the 12 attributes on lists of length 0-4 / 0-6 in "
+             "list/tuple/iterator/generator/async-generator form against the real LoopContext and AsyncLoopContext, "
+             "random op soups, and rendered for-loops (filter, else, recursive depth) in sync and async environments.",
+        note="Trusted: Lean kernel; hand model Model/Loop.lean (tied by correspondence); compiler's for-loop "
+             "driver (visit_For) is covered end-to-end only; values are ints.",
+        design_ref="§5 C07",
+    ),
 }
 
 NOT_YET = "not yet decided by the Lean model in this revision (machinery for it is not built; see DESIGN.md §8 build order)"
